@@ -280,7 +280,7 @@ def run(ctx):
         bounds={'preemption_bound': 3 if ctx.thorough else 2, 'threads': '1..%d (more threads than rows included)' % (4 if ctx.thorough else 3),
                 'dispatch': 'static chunk 1, static block, dynamic chunk 1, dynamic chunk 2, guided (explorer-chosen, the pragma is ignored)',
                 'collections': 'n = 2..5 series (unequal lengths for the ptrs variants, ndim 2 for the ndim variants)',
-                'settings': 'default; window 2 + psi 1 + penalty .5; use_pruning; max_dist 2.5 + psi_1b 1 (the last two under static-1 and dynamic-1 dispatch)',
+                'settings': 'default; window 2 + psi 1 + penalty .5; use_pruning; max_dist 2.5 + psi_1b 1; max_length_diff 1 (the last three under static-1 and dynamic-1 dispatch)',
                 'blocks': 'every block for n <= %d, a covering subset (none, full, upper-right, crossing, below diagonal, single row) above' % (4 if ctx.thorough else 3),
                 'pool': 'P in {1,2,3}, all permutations of <= 6 tasks (rotations beyond), Python and C single-pair routine, ndim 1-2, n <= %d' % (5 if ctx.thorough else 4)},
         assumptions=['sequentially consistent interleaving model with race detection; weak-memory effects and the correctness of libgomp itself are out of scope',
